@@ -173,6 +173,11 @@ Definition chk_spec_sel (k : kspec) (cs : list (list hrow * list Z)) (expect : l
 Definition k_push_sel_not_prefix (cs : list (list hrow * list Z)) : bool :=
   k_sel_not_prefix (map (fun c => map n (snd c)) cs).
 
+(** LimitingSink: kept chunks and the continue answers *)
+Definition chk_lsink (lim : Z) (cs : list (list row)) (kept : list (list row)) (answers : list bool) : bool :=
+  let '(o, b) := lsink_run (n lim) 0%nat cs in chunks_eqb o kept && list_eqb Bool.eqb b answers.
+Definition k_lsink (lim : Z) (cs : list (list row)) : bool := k_lsink_overshoot (n lim) 0%nat cs.
+
 (** Pipeline::execute over a VectorSource *)
 Inductive pobs := ODiverge | ORows (out : list (list row)).
 Definition chk_pipeline (ks : list kspec) (rows : list hrow) (impl : pobs) : bool :=
@@ -246,6 +251,31 @@ Definition chk_partition (nparts : Z) (kvs : list (hkey * Z)) (sizes : list Z) (
   let ps := fold_left (pinsert hkey_eqb (@fst Z row) (n nparts)) kvs (pstate0 (n nparts)) in
   zlist_eqb (map (fun p => Z.of_nat (length p)) ps) sizes
   && (length (concat ps) =? length drained)%nat && subset_kv (concat ps) drained.
+
+(** ** GROUP BY: the in-memory operator (groups identified by the hashes of the key values) and the
+    spilling one (groups identified by the key values); outputs are bags *)
+Definition count_row (r : row) (l : list row) : nat := length (filter (row_eqb r) l).
+Definition bag_eqb (l1 l2 : list row) : bool :=
+  (length l1 =? length l2)%nat && forallb (fun r => (count_row r l1 =? count_row r l2)%nat) l1.
+Definition mkagg (f : aggf) (col : Z) : aggexpr := {| ag_fn := f; ag_col := if col <? 0 then None else Some (n col) |}.
+Definition agg_input_h (cols : list nat) (rows : list hrow) : list (list Z * row * row) :=
+  map (fun hr => (sel 0 cols (fst hr), sel VNull cols (snd hr), snd hr)) rows.
+Definition agg_input_v (cols : list nat) (rows : list hrow) : list (row * row * row) :=
+  map (fun hr => (sel VNull cols (snd hr), sel VNull cols (snd hr), snd hr)) rows.
+Definition model_agg_mem (cols : list Z) (aggs : list aggexpr) (rows : list hrow) : list row :=
+  match cols with
+  | [] => global_agg aggs (map snd rows)
+  | _ => group_by zlist_eqb aggs (agg_input_h (map n cols) rows)
+  end.
+Definition model_agg_spill (cols : list Z) (aggs : list aggexpr) (rows : list hrow) : list row :=
+  match cols with
+  | [] => global_agg aggs (map snd rows)
+  | _ => group_by row_eqb aggs (agg_input_v (map n cols) rows)
+  end.
+Definition chk_agg (cols : list Z) (aggs : list aggexpr) (rows : list hrow) (impl_mem impl_spill : list row) : bool :=
+  bag_eqb (model_agg_mem cols aggs rows) impl_mem && bag_eqb (model_agg_spill cols aggs rows) impl_spill.
+Definition show_agg (cols : list Z) (aggs : list aggexpr) (rows : list hrow) :=
+  (model_agg_mem cols aggs rows, model_agg_spill cols aggs rows).
 
 (** ** constructors taking Z arguments (the harness prints no nat literals) *)
 Definition sk (c : Z) (asc nf : bool) : skey := {| k_col := n c; k_asc := asc; k_nf := nf |}.
